@@ -79,7 +79,7 @@ CLAIMS = {
              "xor-shift, odd multiplication, xor constant - judged step by step on the return terms, helper mixers in line) "
              "with a xor-shift and a multiplication over hash() / a child fingerprint / a nested fold, and nested folds start "
              "from len() and a per-type tag: no collision FAMILY by construction (-5 ~ 2**61-6, [a,b] ~ [a+d,b-d*B], a 2x2 "
-             "table ~ its transpose, 5 ~ (5,) ~ [5] were all real on the pinned tree; fixed 17c195f). No hash(x) is reachable for a float, complex or other-typed (Decimal) NaN: the path conditions of every return are evaluated per NaN kind.",
+             "table ~ its transpose, 5 ~ (5,) ~ [5] were all real on the pinned tree; fixed 17c195f). No hash(x) is reachable for a float, complex or other-typed (Decimal) NaN: the path conditions of every return are evaluated per NaN kind. An element is classified by type, never by hasattr (an object with a method named fingerprint is not a nested vector).",
         note="Trusted: hash() of element values; that a 61-bit fold has SOME collisions is unavoidable and not decided "
              "(the statement excludes hash-equal pairs; C16.f excludes the constructible families).",
         technique="CFG must-pass-through (store -> invalidation) + MRO resolution + dataflow slice of the fold + effect summaries + "
@@ -119,7 +119,7 @@ CLAIMS = {
              "most with 'has columns'); _length is stored only at construction and returned by __len__; in-place writes "
              "assign single positions of list(old storage) and promotion rebuilds from all elements; row selections map one "
              "key over all columns; Row snapshots the table's current column tuples unfiltered and every accessor indexes "
-             "them with the row index; >>, <<, .T have the expected shape. Cell equality as values is not decided. For a str / bytes operand Vector.__lshift__ appends one cell on every reachable path, and table << x / x << table reach no result for a string or a mapping (three-valued evaluation per kind of operand).",
+             "them with the row index; >>, <<, .T have the expected shape. Cell equality as values is not decided. For a str / bytes operand Vector.__lshift__ appends one cell on every reachable path, and table << x / x << table reach no result for a string or a mapping (three-valued evaluation per kind of operand). >> adds a mapping's named columns from either side; table << generator materialises; a Row's / Table's shape takes further dimensions from a cell only by its TYPE.",
         note="A structural necessary condition is decided, not the run-time values.",
         technique="term-domain abstract interpretation (length guards as path conditions at every column store, row-view terms) + CFG dominance + who-may-store",
         design="2/C02"),
@@ -160,7 +160,7 @@ CLAIMS = {
              "(shared with C03); Table.__setitem__ resolves columns first and only delegates to column writes; with several target "
              "columns the whole assignment is REHEARSED on Table(<copies of the target columns>) with the same row spec and value "
              "before the first store (all-or-nothing), Vector keys / values are snapshotted first, an untyped empty vector key "
-             "reaches no raise (the final raise's path condition is evaluated for that key), Row.__setitem__ only raises. The value of a table assignment is judged per KIND (vector, list, tuple, one-shot iterator): the sequence written item by item holds copies of its vectors; a whole-value store is feasible for a vector and for any non-list sequence; every item of a list of target columns becomes a target or raises (CFG must-pass); the empty list key reaches no refusal on a vector of 3 (three-valued evaluation). A one-shot iterator value never reaches len(); a mapping value reaches no cell store; a number whose class is iterable (IntFlag) is one cell; several target columns take any sequence of columns (evaluated per kind of value and per assumed number of targets).",
+             "reaches no raise (the final raise's path condition is evaluated for that key), Row.__setitem__ only raises. The value of a table assignment is judged per KIND (vector, list, tuple, one-shot iterator): the sequence written item by item holds copies of its vectors; a whole-value store is feasible for a vector and for any non-list sequence; every item of a list of target columns becomes a target or raises (CFG must-pass); the empty list key reaches no refusal on a vector of 3 (three-valued evaluation). A one-shot iterator value never reaches len(); a mapping value reaches no cell store; a number whose class is iterable (IntFlag) is one cell; several target columns take any sequence of columns (evaluated per kind of value and per assumed number of targets). Sibling agreement of every one-cell-or-sequence test in the package (numbers and enum members are exempt like text); the items of a list value that are one-shot iterators are materialised with the snapshot.",
         note="Equality with list assignment as values (range/slice arithmetic, typeutils.slice_length) is numeric and not decided.",
         technique="CFG reachability between mutation events and may-raise events + effect summaries + finite abstract interpretation",
         design="2/C08"),
